@@ -26,6 +26,9 @@ pub struct TableCase {
     pub ps: bool,
     pub pse: bool,
     pub pager: bool,
+    /// right-nulled table (LALR_RN, the GLR default); overrides `pager`
+    #[serde(default)]
+    pub rn: bool,
 }
 
 #[derive(Clone, Debug, Serialize, Deserialize)]
@@ -152,9 +155,12 @@ impl<'a> Model<'a> {
         None
     }
     /// Some(true) = p1 beats p2, Some(false) = p2 beats p1
-    fn reduce_vs_reduce(&self, p1: usize, p2: usize, deciding: &mut &'static str) -> Option<bool> {
-        let (m1, e1) = self.prod_meta(p1);
-        let (m2, e2) = self.prod_meta(p2);
+    /// `l1`, `l2`: reduction lengths (a reduction is empty when its length is 0; in a
+    /// right-nulled table that can be a shortened reduction of a non-empty production)
+    fn reduce_vs_reduce(&self, p1: usize, l1: usize, p2: usize, l2: usize, deciding: &mut &'static str) -> Option<bool> {
+        let (m1, _) = self.prod_meta(p1);
+        let (m2, _) = self.prod_meta(p2);
+        let (e1, e2) = (l1 == 0, l2 == 0);
         if m1.prio != m2.prio {
             *deciding = "priority";
             return Some(m1.prio > m2.prio);
@@ -180,7 +186,7 @@ fn check_table(c: &TableCase, st: &mut Stats) -> Outcome {
     let spec = table_spec(c);
     let text = spec.render();
     let raw_text = spec.without_meta().render();
-    let tt = if c.pager { TT::Pager } else { TT::Lalr };
+    let tt = if c.rn { TT::Rn } else if c.pager { TT::Pager } else { TT::Lalr };
     let raw = match compile_or_discard(&raw_text, &Cfg::raw(tt), st) {
         Ok(d) => d,
         Err(Some(_)) => {
@@ -193,7 +199,8 @@ fn check_table(c: &TableCase, st: &mut Stats) -> Outcome {
         st.discard("no-conflicts");
         return Outcome::Pass;
     }
-    let cfg = cfg_of(c.glr, c.ps, c.pse, c.pager);
+    let mut cfg = cfg_of(c.glr, c.ps, c.pse, c.pager);
+    cfg.table = Some(tt);
     let res = match compile(&text, &cfg) {
         Ok(d) => d,
         Err(CompileErr::Err(e)) => {
@@ -273,7 +280,7 @@ fn check_table(c: &TableCase, st: &mut Stats) -> Outcome {
                                 None
                             }
                         },
-                        (Cand::Reduce(p1, _), Cand::Reduce(p2, _)) => model.reduce_vs_reduce(*p1, *p2, &mut dec),
+                        (Cand::Reduce(p1, l1), Cand::Reduce(p2, l2)) => model.reduce_vs_reduce(*p1, *l1, *p2, *l2, &mut dec),
                         _ => None,
                     };
                     deciding_rules.push(dec);
@@ -540,9 +547,10 @@ impl Prop for C05 {
             any::<bool>(),
             any::<bool>(),
             any::<bool>(),
+            prop::bool::weighted(0.3),
         )
-            .prop_map(|(g, meta_tape, term_assoc, glr, ps, pse, pager)| {
-                Case::Table(TableCase { g, meta_tape, term_assoc, glr, ps, pse, pager })
+            .prop_map(|(g, meta_tape, term_assoc, glr, ps, pse, pager, rn)| {
+                Case::Table(TableCase { g, meta_tape, term_assoc, glr, ps, pse, pager, rn })
             });
         let expr = (
             gen::op_levels(),
@@ -567,7 +575,7 @@ impl Prop for C05 {
     fn rule(&self) -> String {
         "part 1: generated conflict-rich BNF grammars with random priorities / left|reduce|right|shift \
          / nops / nopse on productions and rules, associativity on terminals, x {LR,GLR} x \
-         prefer_shifts x prefer_shifts_over_empty x {LALR,LALR_PAGER}; two real dumps of the same \
+         prefer_shifts x prefer_shifts_over_empty x {LALR, LALR_PAGER, LALR_RN}; two real dumps of the same \
          rules: raw (meta stripped, nothing resolved) and resolved; for every cell with competing \
          actions: two-candidate cells are compared with the documented \
          decision function (priority, terminal-over-production associativity, prefer-shift flags \
